@@ -28,3 +28,8 @@ def run(ck):
     pipeline.overflow_dispatch(ck, "C02.R6", "C03.R2", roles)
     pipeline.store_pipeline(ck, "C01.R2", want_bounds=True)
     carriers.machine_carrier(ck, "C18.R5")
+    fresh.constructor_state(ck, "C20.R2")            # results and operands are built by the constructor: own status record, own final configuration
+    conv.order_consistency(ck, "C18.R6")
+    conv.getitem_keeps_map(ck, "C17.R6")
+    fresh.returned_objects_fresh(ck, "C20.R1")
+    funcs.route_selection(ck, "C07.R8")
